@@ -4,8 +4,8 @@ import bp
 
 EXPLANATION = ('C17: real Sign/StepFunction/Relative_Difference/Floats_Equal: consistency, symmetry and reflexivity with every divisor non-zero (EA) and, bit-precisely over all doubles, Sign/StepFunction consistency (CBMC); '
                'Round: odd, Round(0)=0, more than 7 digits rejected; Dawson_Integral: odd on both branches; VSH coefficient tables with symbolic integer (l,m): selection structure (non-zero only for l_hat = l+-1 and the stated m_hat) and the sum rules sum |coef|^2 = 1 (Y) and = l(l+1) (Psi); component outside {0,1,2} rejected.')
-BOUNDS = {'quick': {}, 'thorough': {}}
-NOT_DECIDED = ['accuracy of Dawson_Integral / Erfi / Inv_Erf (transcendental references)', "Round's half-unit, idempotence and monotonicity claims (go through log10/pow)", 'conjugation, tangentiality and gradient identities of the vector harmonics (need the scalar harmonics from boost) and the sign conventions of the tables']
+BOUNDS = {'quick': {'vsh_lmax': 4}, 'thorough': {'vsh_lmax': 12}}
+NOT_DECIDED = ['accuracy of Dawson_Integral / Erfi / Inv_Erf (transcendental references)', "Round's half-unit, idempotence and monotonicity claims (go through log10/pow)", 'conjugation, tangentiality and gradient identities of the vector harmonics as identities of functions (need the scalar harmonics from boost; decided here: coefficient tables, selection and sum rules, and that the summation loops add exactly the table entries with |m_hat| <= l_hat for l <= vsh_lmax) and the sign conventions of the tables']
 ASSUMPTIONS = ['EA: doubles exact reals, exp/log10/pow uninterpreted', 'VSH: l, m symbolic integers with l >= 1, |m| <= l; square roots via witnesses']
 
 X, Y, T = z3.Real('x'), z3.Real('y'), z3.Real('tol')
@@ -135,11 +135,50 @@ def job_vsh(which):
         res.append(ob('vsh-%s/component%d-rejected' % (nm, comp), 'discharged' if ok else 'candidate', key='C17/vsh/component-rejected', model=None if ok else {'which': which, 'comp': comp}, detail=str([str(p.end) for p in ps])))
     return res
 
+TH, PH = z3.Real('theta'), z3.Real('phi')
+def ylm_intercept():
+    """the scalar harmonic Y_{l,m}(theta,phi) (boost) as one pair of symbols per (l,m): the assembly loops are decided for every value the scalar harmonics can take"""
+    def f(it, args, st, depth):
+        l, m = args[0], args[1]
+        if is_sym(l) or is_sym(m): raise Unsupported('symbolic degree in Spherical_Harmonics')
+        l = l - (1 << 32) if l >> 31 else l; m = m - (1 << 32) if m >> 31 else m
+        return [(st, [z3.Real('Yre_%d_%d' % (l, m)), z3.Real('Yim_%d_%d' % (l, m))])]
+    d = {'@_ZN10libphysica19Spherical_HarmonicsEiidd': f}
+    for name in list(G['m'].funcs) + list(G['m'].decls):
+        if name.startswith('@_ZN5boost4math6detail18spherical_harmonicI'): d[name] = f      # Spherical_Harmonics is inlined at -O1: its boost kernel is the call that remains
+    return d
+def job_vsh_sum(which, lmax):
+    """summation of the coefficient tables: for every (l,m), l <= lmax, each Cartesian component of the real Vector_Spherical_Harmonics_Y/Psi is the sum over ALL (l_hat,m_hat) with |m_hat| <= l_hat of coefficient x Y_{l_hat,m_hat}"""
+    res = []; nm = 'Y' if which == 0 else 'Psi'
+    for l in range(0, lmax + 1):
+        for m in range(-l, l + 1):
+            tag = 'vsh-%s/assembly/l%d/m%+d' % (nm, l, m); outp = {}
+            def out(st): outp['a'] = st.alloc(48); return outp['a']
+            _, ps = run('@verif_vsh_vec', [which, l & 0xffffffff, m & 0xffffffff, TH, PH, out], intercept=ylm_intercept(), limits=Limits(feas_ms=2000, max_seconds=60))
+            if len(ps) != 1 or ps[0].end is not None:
+                res.append(ob(tag + '/returns', 'undecided', key='C17/vsh/assembly', detail=str([str(p.end) for p in ps][:3]))); continue
+            st = ps[0].st; mv = {'which': which, 'l': l, 'm': m}
+            for comp in range(3):
+                wre, wim = z3.RealVal(0), z3.RealVal(0)
+                for lh in (l - 1, l + 1):
+                    for mh in (m - 1, m, m + 1):
+                        if lh < 0 or abs(mh) > lh: continue
+                        co = {}
+                        def cout(st2): co['a'] = st2.alloc(16); return co['a']
+                        _, cp = run('@verif_vsh', [which, comp, l & 0xffffffff, m & 0xffffffff, lh & 0xffffffff, mh & 0xffffffff, cout])
+                        if len(cp) != 1 or cp[0].end is not None: raise Unsupported('coefficient call did not return')
+                        cr, ci = cp[0].st.load(co['a'], 8, True), cp[0].st.load(co['a'] + 8, 8, True)
+                        yr, yi = z3.Real('Yre_%d_%d' % (lh, mh)), z3.Real('Yim_%d_%d' % (lh, mh))
+                        wre = wre + toR(cr) * yr - toR(ci) * yi; wim = wim + toR(cr) * yi + toR(ci) * yr
+                gre, gim = st.load(outp['a'] + 16 * comp, 8, True), st.load(outp['a'] + 16 * comp + 8, 8, True)
+                res.append(prove('%s/component%d' % (tag, comp), st.pc, z3.And(toR(gre) == wre, toR(gim) == wim), 10000, dict(mv, comp=comp), key='C17/vsh/assembly', sample=(l == 1 and m == 1 and comp == 0)))
+    return res
+
 def job_bp(h): return bp.run_harness('C17', 'C17.c', h, G['m'], ['verif_sf'])
 
 def jobs(ctx):
     module(ctx)
-    J = [(job_simple, ()), (job_round, ()), (job_dawson, ()), (job_vsh, (0,)), (job_vsh, (1,))]
+    J = [(job_simple, ()), (job_round, ()), (job_dawson, ()), (job_vsh, (0,)), (job_vsh, (1,)), (job_vsh_sum, (0, BOUNDS[ctx.tier]['vsh_lmax'])), (job_vsh_sum, (1, BOUNDS[ctx.tier]['vsh_lmax']))]
     for h in bp.harnesses('C17.c', ctx.tier): J.append((job_bp, (h,)))
     return J
 
@@ -163,6 +202,25 @@ def replay(ctx, o):
         so = native(ctx); comp = m.get('comp', 0); which = m.get('which', 0)
         if key == 'C17/vsh/component-rejected':
             r = nat.call(so, 'verif_vsh', [('i32', which), ('i32', comp), ('i32', 2), ('i32', 1), ('i32', 3), ('i32', 2), ('dbl[]', [0.0, 0.0])], restype='void'); return r['status'] != 'exit', 'native: ' + r['status']
+        if key == 'C17/vsh/assembly':
+            # the assembled vector at a generic direction against scipy's scalar harmonics: Y = r_hat Y_lm; Psi = theta_hat dY/dtheta + phi_hat (i m / sin theta) Y (tangential)
+            import cmath
+            try:
+                from scipy.special import sph_harm_y
+                sph = lambda mm_, l_, az, pol: sph_harm_y(l_, mm_, pol, az)
+            except ImportError:
+                from scipy.special import sph_harm as sph
+            l, mm = m['l'], m['m']; th, ph = 0.7, 0.3
+            r = nat.call(so, 'verif_vsh_vec', [('i32', which), ('i32', l), ('i32', mm), th, ph, ('dbl[]', [0.0] * 6)], restype='void')
+            if r['status'] != 'ok': return True, 'native Vector_Spherical_Harmonics(%d,%d): %s' % (l, mm, r['status'])
+            v = [complex(r['arrays'][0][2 * i], r['arrays'][0][2 * i + 1]) for i in range(3)]
+            Y = lambda t: complex(sph(mm, l, ph, t))
+            rh = (math.sin(th) * math.cos(ph), math.sin(th) * math.sin(ph), math.cos(th)); tht = (math.cos(th) * math.cos(ph), math.cos(th) * math.sin(ph), -math.sin(th)); pht = (-math.sin(ph), math.cos(ph), 0.0)
+            if which == 0: want = [rh[i] * Y(th) for i in range(3)]
+            else:
+                dY = (Y(th + 1e-5) - Y(th - 1e-5)) / 2e-5; want = [tht[i] * dY + pht[i] * 1j * mm / math.sin(th) * Y(th) for i in range(3)]
+            err = max(abs(a - b) for a, b in zip(v, want))
+            return err > 1e-7, 'native Vector_Spherical_Harmonics_%s(l=%d,m=%d,theta=0.7,phi=0.3) = %s, reference %s (max deviation %.3g)' % ('Y' if which == 0 else 'Psi', l, mm, v, want, err)
         # numeric sum rule / selection over l <= 6
         worst = 0.0; where = ''
         for l in range(1, 7):
